@@ -978,6 +978,21 @@ fn grammar_space(ctx: &Ctx) -> (Vec<RefGrammar>, Vec<(String, usize)>) {
     (gs, sizes)
 }
 
+/// C05 quick: the acyclic grammars of U(2,2,2,3,6) whose table has conflicts (resolved the Yacc way),
+/// with short inputs and unit costs. On such tables a token that has an action may still be an
+/// error after the reductions it triggers - the place where a recorded edit and what the parser
+/// actually does can come apart.
+fn conflict_space() -> Vec<RefGrammar> {
+    use rayon::prelude::*;
+    let have: std::collections::HashSet<RefGrammar> = vcore::gram::Universe::new(2, 2, 2, 2, 5).enumerate().into_iter().collect();
+    vcore::gram::Universe::new(2, 2, 2, 3, 6)
+        .enumerate()
+        .into_par_iter()
+        .filter(|g| !have.contains(g) && !analyse(g).any_cyclic() && analyse(g).all_productive())
+        .filter(|g| build::<u32>(g).map(|b| b.st.conflicts().is_some()).unwrap_or(false))
+        .collect()
+}
+
 pub fn run(ctx: Ctx, mode: Mode) -> i32 {
     let timeout = Duration::from_secs(if ctx.quick() { 60 } else { 300 });
     if let Some(case) = load_replay(&ctx) {
@@ -1041,6 +1056,21 @@ pub fn run(ctx: Ctx, mode: Mode) -> i32 {
     use rayon::prelude::*;
     let mut gs = gs;
     let mut base_cases: Vec<Value> = gs.par_iter().map(|g| mk_case(g)).collect();
+    if mode == Mode::C05 && ctx.quick() {
+        let extra = conflict_space();
+        ctx.set("conflict_tables_of_U(2,2,2,3,6)_with_inputs_up_to_3_and_unit_costs", extra.len() as u64);
+        let cases: Vec<Value> = extra
+            .par_iter()
+            .map(|g| {
+                let mut c = mk_case(g);
+                c["n"] = json!(3);
+                c["cost_vals"] = json!([1]);
+                c
+            })
+            .collect();
+        gs.extend(extra);
+        base_cases.extend(cases);
+    }
     if mode == Mode::C07 {
         // Deadline pass: the environment answer "the recovery deadline passes during the search".
         // Each grammar of <= 2 tokens gets one more token that no production mentions; inputs are
